@@ -16,107 +16,149 @@ of the other properties; the C09 harness builds it explicitly (harness/c09_stora
     (cf. `paged_read_all_invisible` / `paged_off_by_one_loses_row` in Props/C09.lean for what a paged rewrite must satisfy);
   * the statements that address one row carry the key `WHERE id = ? AND tag = ?` (model: `Sqlite.hits`), `read_all(tag)`
     carries `WHERE tag = ?` (model: `filter (·.tag == tag)`), `read_all()` no `WHERE` at all.
+  * connection configuration (round 4): the object only ever uses connections made by `__db_connect` - from `__init__` and from
+    the `except sqlite3.OperationalError` branch of `__db_execute` (reconnect, then ONE retry; a second error propagates: model
+    `Conn.attempt`); autocommit (`isolation_level=None`) is an argument of the one `sqlite3.connect` call, i.e. set on EVERY
+    connect path (`code_cfg_autocommit`: the `Conn.Cfg` of the code is (true, true), the hypothesis `Conn.Good` of
+    `conn_run_refines` / `acknowledged_visible_everywhere`); nothing ever leaves autocommit or manages transactions by hand
+    (`code_stays_autocommit`); the settings made on the init-only path are `PRAGMA journal_mode=WAL` (a property of the file, kept
+    by every later connection) and `PRAGMA busy_timeout=5000` (= the `timeout=5` every connect call passes).
 A rewrite of any statement, a new loop, LIMIT, cache-style early exit or a cursor call outside the mutex changes the generated
 table, `sql_sites_are_known` stops checking, and the C09 check searches for a failing input with the size-scaling generators.
 -/
 namespace CS.Storage
 
 def auditedSqlSites : List SqlSite := [
+  { method := "SqliteStorage.__init__", kind := "call", callee := "self.__db_connect",
+    sql := "",
+    toks := ["__db_connect"],
+    params := "", ctx := "", inLoop := false, underMutex := false,
+    hasLimit := false, hasOffset := false, hasOrderBy := false, result := "", exitsBefore := 0, reach := "init-only" },
   { method := "SqliteStorage.__db_connect", kind := "call", callee := "self.close",
     sql := "",
-    toks := [],
+    toks := ["close"],
     params := "", ctx := "If", inLoop := false, underMutex := false,
-    hasLimit := false, hasOffset := false, hasOrderBy := false, result := "", exitsBefore := 0 },
+    hasLimit := false, hasOffset := false, hasOrderBy := false, result := "", exitsBefore := 0, reach := "connect" },
   { method := "SqliteStorage.__db_connect", kind := "call", callee := "sqlite3.connect",
     sql := "",
+    toks := ["connect"],
+    params := "self._filename", ctx := "", inLoop := false, underMutex := false,
+    hasLimit := false, hasOffset := false, hasOrderBy := false, result := "", exitsBefore := 0, reach := "connect" },
+  { method := "SqliteStorage.__db_connect", kind := "connkw", callee := "sqlite3.connect",
+    sql := "arg0",
     toks := [],
     params := "self._filename", ctx := "", inLoop := false, underMutex := false,
-    hasLimit := false, hasOffset := false, hasOrderBy := false, result := "", exitsBefore := 0 },
+    hasLimit := false, hasOffset := false, hasOrderBy := false, result := "", exitsBefore := 0, reach := "connect" },
+  { method := "SqliteStorage.__db_connect", kind := "connkw", callee := "sqlite3.connect",
+    sql := "uri",
+    toks := [],
+    params := "self._filename.startswith('file:')", ctx := "", inLoop := false, underMutex := false,
+    hasLimit := false, hasOffset := false, hasOrderBy := false, result := "", exitsBefore := 0, reach := "connect" },
+  { method := "SqliteStorage.__db_connect", kind := "connkw", callee := "sqlite3.connect",
+    sql := "check_same_thread",
+    toks := [],
+    params := "self._filename == ':memory:'", ctx := "", inLoop := false, underMutex := false,
+    hasLimit := false, hasOffset := false, hasOrderBy := false, result := "", exitsBefore := 0, reach := "connect" },
+  { method := "SqliteStorage.__db_connect", kind := "connkw", callee := "sqlite3.connect",
+    sql := "timeout",
+    toks := [],
+    params := "5", ctx := "", inLoop := false, underMutex := false,
+    hasLimit := false, hasOffset := false, hasOrderBy := false, result := "", exitsBefore := 0, reach := "connect" },
+  { method := "SqliteStorage.__db_connect", kind := "connkw", callee := "sqlite3.connect",
+    sql := "isolation_level",
+    toks := [],
+    params := "None", ctx := "", inLoop := false, underMutex := false,
+    hasLimit := false, hasOffset := false, hasOrderBy := false, result := "", exitsBefore := 0, reach := "connect" },
   { method := "SqliteStorage.__db_execute", kind := "stmt", callee := "self.db.execute",
     sql := "{param:sql}",
     toks := ["{param:sql}"],
     params := "parameters", ctx := "With(self._mutex)>Try", inLoop := false, underMutex := true,
-    hasLimit := false, hasOffset := false, hasOrderBy := false, result := ".fetchall", exitsBefore := 0 },
+    hasLimit := false, hasOffset := false, hasOrderBy := false, result := ".fetchall", exitsBefore := 0, reach := "any" },
+  { method := "SqliteStorage.__db_execute", kind := "call", callee := "self.__db_connect",
+    sql := "",
+    toks := ["__db_connect"],
+    params := "", ctx := "With(self._mutex)>Except(sqlite3.OperationalError)", inLoop := false, underMutex := true,
+    hasLimit := false, hasOffset := false, hasOrderBy := false, result := "", exitsBefore := 0, reach := "any" },
   { method := "SqliteStorage.__db_execute", kind := "stmt", callee := "self.db.execute",
     sql := "{param:sql}",
     toks := ["{param:sql}"],
     params := "parameters", ctx := "With(self._mutex)>Except(sqlite3.OperationalError)", inLoop := false, underMutex := true,
-    hasLimit := false, hasOffset := false, hasOrderBy := false, result := ".fetchall", exitsBefore := 0 },
+    hasLimit := false, hasOffset := false, hasOrderBy := false, result := ".fetchall", exitsBefore := 0, reach := "any" },
   { method := "SqliteStorage.__db_execute", kind := "call", callee := "retval.fetchall",
     sql := "",
-    toks := [],
+    toks := ["fetchall"],
     params := "", ctx := "With(self._mutex)>If", inLoop := false, underMutex := true,
-    hasLimit := false, hasOffset := false, hasOrderBy := false, result := "", exitsBefore := 0 },
+    hasLimit := false, hasOffset := false, hasOrderBy := false, result := "", exitsBefore := 0, reach := "any" },
   { method := "SqliteStorage._ensure_table_exists", kind := "stmt", callee := "self.__db_execute",
     sql := "PRAGMA journal_mode=WAL;",
     toks := ["PRAGMA", "JOURNAL_MODE", "=", "WAL", ";"],
     params := "", ctx := "", inLoop := false, underMutex := true,
-    hasLimit := false, hasOffset := false, hasOrderBy := false, result := "", exitsBefore := 0 },
+    hasLimit := false, hasOffset := false, hasOrderBy := false, result := "", exitsBefore := 0, reach := "init-only" },
   { method := "SqliteStorage._ensure_table_exists", kind := "stmt", callee := "self.__db_execute",
     sql := "PRAGMA busy_timeout=5000;",
     toks := ["PRAGMA", "BUSY_TIMEOUT", "=", "5000", ";"],
     params := "", ctx := "", inLoop := false, underMutex := true,
-    hasLimit := false, hasOffset := false, hasOrderBy := false, result := "", exitsBefore := 0 },
+    hasLimit := false, hasOffset := false, hasOrderBy := false, result := "", exitsBefore := 0, reach := "init-only" },
   { method := "SqliteStorage._ensure_table_exists", kind := "stmt", callee := "self.__db_execute",
     sql := "CREATE TABLE IF NOT EXISTS cloud (id INTEGER PRIMARY KEY, tag TEXT NOT NULL, serialization BLOB)",
     toks := ["CREATE", "TABLE", "IF", "NOT", "EXISTS", "CLOUD", "(", "ID", "INTEGER", "PRIMARY", "KEY", ",", "TAG", "TEXT", "NOT", "NULL", ",", "SERIALIZATION", "BLOB", ")"],
     params := "", ctx := "", inLoop := false, underMutex := true,
-    hasLimit := false, hasOffset := false, hasOrderBy := false, result := "", exitsBefore := 0 },
+    hasLimit := false, hasOffset := false, hasOrderBy := false, result := "", exitsBefore := 0, reach := "init-only" },
   { method := "SqliteStorage._ensure_table_exists", kind := "stmt", callee := "self.__db_execute",
     sql := "CREATE INDEX IF NOT EXISTS cloud_tag_ix on cloud(tag)",
     toks := ["CREATE", "INDEX", "IF", "NOT", "EXISTS", "CLOUD_TAG_IX", "ON", "CLOUD", "(", "TAG", ")"],
     params := "", ctx := "", inLoop := false, underMutex := true,
-    hasLimit := false, hasOffset := false, hasOrderBy := false, result := "", exitsBefore := 0 },
+    hasLimit := false, hasOffset := false, hasOrderBy := false, result := "", exitsBefore := 0, reach := "init-only" },
   { method := "SqliteStorage._ensure_table_exists", kind := "stmt", callee := "self.__db_execute",
     sql := "CREATE INDEX IF NOT EXISTS cloud_id_ix on cloud(id)",
     toks := ["CREATE", "INDEX", "IF", "NOT", "EXISTS", "CLOUD_ID_IX", "ON", "CLOUD", "(", "ID", ")"],
     params := "", ctx := "", inLoop := false, underMutex := true,
-    hasLimit := false, hasOffset := false, hasOrderBy := false, result := "", exitsBefore := 0 },
+    hasLimit := false, hasOffset := false, hasOrderBy := false, result := "", exitsBefore := 0, reach := "init-only" },
   { method := "SqliteStorage.create", kind := "stmt", callee := "self.__db_execute",
     sql := "INSERT INTO cloud (tag, serialization) VALUES (?, ?)",
     toks := ["INSERT", "INTO", "CLOUD", "(", "TAG", ",", "SERIALIZATION", ")", "VALUES", "(", "?", ",", "?", ")"],
     params := "[tag, serialization]", ctx := "", inLoop := false, underMutex := true,
-    hasLimit := false, hasOffset := false, hasOrderBy := false, result := ".lastrowid", exitsBefore := 0 },
+    hasLimit := false, hasOffset := false, hasOrderBy := false, result := ".lastrowid", exitsBefore := 0, reach := "any" },
   { method := "SqliteStorage.update", kind := "stmt", callee := "self.__db_execute",
     sql := "UPDATE cloud SET serialization = ? WHERE id = ? AND tag = ?",
     toks := ["UPDATE", "CLOUD", "SET", "SERIALIZATION", "=", "?", "WHERE", "ID", "=", "?", "AND", "TAG", "=", "?"],
     params := "[serialization, eid, tag]", ctx := "", inLoop := false, underMutex := true,
-    hasLimit := false, hasOffset := false, hasOrderBy := false, result := ".rowcount", exitsBefore := 0 },
+    hasLimit := false, hasOffset := false, hasOrderBy := false, result := ".rowcount", exitsBefore := 0, reach := "any" },
   { method := "SqliteStorage.delete", kind := "stmt", callee := "self.__db_execute",
     sql := "DELETE FROM cloud WHERE id = ? AND tag = ?",
     toks := ["DELETE", "FROM", "CLOUD", "WHERE", "ID", "=", "?", "AND", "TAG", "=", "?"],
     params := "[eid, tag]", ctx := "", inLoop := false, underMutex := true,
-    hasLimit := false, hasOffset := false, hasOrderBy := false, result := ".rowcount", exitsBefore := 0 },
+    hasLimit := false, hasOffset := false, hasOrderBy := false, result := ".rowcount", exitsBefore := 0, reach := "any" },
   { method := "SqliteStorage.read_all", kind := "stmt", callee := "self.__db_execute",
     sql := "SELECT id, tag, serialization FROM cloud WHERE tag = ?",
     toks := ["SELECT", "ID", ",", "TAG", ",", "SERIALIZATION", "FROM", "CLOUD", "WHERE", "TAG", "=", "?"],
     params := "[tag]", ctx := "If", inLoop := false, underMutex := true,
-    hasLimit := false, hasOffset := false, hasOrderBy := false, result := "fetch=True for", exitsBefore := 0 },
+    hasLimit := false, hasOffset := false, hasOrderBy := false, result := "fetch=True for", exitsBefore := 0, reach := "any" },
   { method := "SqliteStorage.read_all", kind := "stmt", callee := "self.__db_execute",
     sql := "SELECT id, tag, serialization FROM cloud",
     toks := ["SELECT", "ID", ",", "TAG", ",", "SERIALIZATION", "FROM", "CLOUD"],
     params := "", ctx := "If>else", inLoop := false, underMutex := true,
-    hasLimit := false, hasOffset := false, hasOrderBy := false, result := "fetch=True for", exitsBefore := 0 },
+    hasLimit := false, hasOffset := false, hasOrderBy := false, result := "fetch=True for", exitsBefore := 0, reach := "any" },
   { method := "SqliteStorage.read_all", kind := "loop", callee := "",
     sql := "for row in rows",
     toks := [],
     params := "", ctx := "", inLoop := false, underMutex := false,
-    hasLimit := false, hasOffset := false, hasOrderBy := false, result := "", exitsBefore := 0 },
+    hasLimit := false, hasOffset := false, hasOrderBy := false, result := "", exitsBefore := 0, reach := "any" },
   { method := "SqliteStorage.read", kind := "stmt", callee := "self.__db_execute",
     sql := "SELECT serialization FROM cloud WHERE id = ? and tag = ?",
     toks := ["SELECT", "SERIALIZATION", "FROM", "CLOUD", "WHERE", "ID", "=", "?", "AND", "TAG", "=", "?"],
     params := "[eid, tag]", ctx := "", inLoop := false, underMutex := true,
-    hasLimit := false, hasOffset := false, hasOrderBy := false, result := "fetch=True for", exitsBefore := 0 },
+    hasLimit := false, hasOffset := false, hasOrderBy := false, result := "fetch=True for", exitsBefore := 0, reach := "any" },
   { method := "SqliteStorage.read", kind := "loop", callee := "",
     sql := "for row in rows",
     toks := [],
     params := "", ctx := "", inLoop := false, underMutex := false,
-    hasLimit := false, hasOffset := false, hasOrderBy := false, result := "", exitsBefore := 0 },
+    hasLimit := false, hasOffset := false, hasOrderBy := false, result := "", exitsBefore := 0, reach := "any" },
   { method := "SqliteStorage.close", kind := "call", callee := "self.db.close",
     sql := "",
-    toks := [],
+    toks := ["close"],
     params := "", ctx := "Try", inLoop := false, underMutex := false,
-    hasLimit := false, hasOffset := false, hasOrderBy := false, result := "", exitsBefore := 0 }
+    hasLimit := false, hasOffset := false, hasOrderBy := false, result := "", exitsBefore := 0, reach := "any" }
 ]
 
 /-- the SQL sites of the repo under test are exactly the audited ones -/
@@ -169,8 +211,10 @@ theorem sql_under_mutex :
     (auditedSqlSites.all fun s => s.kind != "stmt" ||
         (s.callee == "self.__db_execute" || (s.method == "SqliteStorage.__db_execute" && s.callee == "self.db.execute"))) = true ∧
     ((auditedSqlSites.filter (fun s => s.kind == "call")).map (fun s => (s.method, s.callee, s.underMutex)) =
-      [ ("SqliteStorage.__db_connect", "self.close", false),
+      [ ("SqliteStorage.__init__", "self.__db_connect", false),
+        ("SqliteStorage.__db_connect", "self.close", false),
         ("SqliteStorage.__db_connect", "sqlite3.connect", false),
+        ("SqliteStorage.__db_execute", "self.__db_connect", true),
         ("SqliteStorage.__db_execute", "retval.fetchall", true),
         ("SqliteStorage.close", "self.db.close", false) ]) := by decide
 
@@ -185,8 +229,59 @@ theorem sql_keys_match_model :
          | .insertTagVal | .schema | .passThrough => true
          | .other => false)) = true := by decide
 
-/-- non-vacuity: the audited table has the 13 statement rows, 4 other cursor calls and 2 loops -/
+/-! ### connection configuration (round 4) -/
+
+/-- every connection-configuration site, with the call paths that reach it: the connect call and its arguments (run for EVERY
+    connection), the two (re)connect sites - `__init__` and the `except sqlite3.OperationalError` branch of `__db_execute` -,
+    the per-connection PRAGMAs (init-only path) and the two `close` calls; there is no assignment to `isolation_level` /
+    `autocommit` / `row_factory` / `text_factory` anywhere -/
+theorem conn_config_sites :
+    ((auditedSqlSites.filter (fun s => s.kind == "connkw" || s.kind == "connattr" || s.kind == "call" ||
+          (s.kind == "stmt" && s.toks.head? == some "PRAGMA"))).filter (fun s => s.toks != ["fetchall"])).map
+        (fun s => (s.method, s.kind, (if s.kind == "call" then s.callee else s.sql), s.params, s.ctx, s.reach)) =
+      [ ("SqliteStorage.__init__", "call", "self.__db_connect", "", "", "init-only"),
+        ("SqliteStorage.__db_connect", "call", "self.close", "", "If", "connect"),
+        ("SqliteStorage.__db_connect", "call", "sqlite3.connect", "self._filename", "", "connect"),
+        ("SqliteStorage.__db_connect", "connkw", "arg0", "self._filename", "", "connect"),
+        ("SqliteStorage.__db_connect", "connkw", "uri", "self._filename.startswith('file:')", "", "connect"),
+        ("SqliteStorage.__db_connect", "connkw", "check_same_thread", "self._filename == ':memory:'", "", "connect"),
+        ("SqliteStorage.__db_connect", "connkw", "timeout", "5", "", "connect"),
+        ("SqliteStorage.__db_connect", "connkw", "isolation_level", "None", "", "connect"),
+        ("SqliteStorage.__db_execute", "call", "self.__db_connect", "", "With(self._mutex)>Except(sqlite3.OperationalError)", "any"),
+        ("SqliteStorage._ensure_table_exists", "stmt", "PRAGMA journal_mode=WAL;", "", "", "init-only"),
+        ("SqliteStorage._ensure_table_exists", "stmt", "PRAGMA busy_timeout=5000;", "", "", "init-only"),
+        ("SqliteStorage.close", "call", "self.db.close", "", "Try", "any") ] := by decide
+
+/-- every connection the object can ever use is configured for autocommit: the `Conn.Cfg` read off the sites is (true, true)
+    - the hypothesis `Conn.Good` of the durability theorems of Props/C09.lean -/
+theorem code_cfg_autocommit : cfgOf auditedSqlSites = { initAuto := true, reconnAuto := true } := by decide
+
+/-- no statement runs outside autocommit: nothing sets another isolation level, uses `autocommit`, calls `commit()` /
+    `rollback()` / `cursor()`, or issues BEGIN / COMMIT / ROLLBACK / SAVEPOINT -/
+theorem code_stays_autocommit : staysAutocommit auditedSqlSites = true := by decide
+
+/-- the error path of `__db_execute` is: `execute` inside `try`; on `sqlite3.OperationalError` reconnect and `execute` ONCE more
+    (no loop, a second error propagates); `fetchall` outside the `try` (its error propagates) - what `Conn.attempt` / `Conn.step` model -/
+theorem reconnect_is_one_retry :
+    (auditedSqlSites.filter (fun s => s.method == "SqliteStorage.__db_execute")).map
+        (fun s => (s.kind, (if s.kind == "call" then s.callee else s.sql), s.ctx, s.inLoop)) =
+      [ ("stmt", "{param:sql}", "With(self._mutex)>Try", false),
+        ("call", "self.__db_connect", "With(self._mutex)>Except(sqlite3.OperationalError)", false),
+        ("stmt", "{param:sql}", "With(self._mutex)>Except(sqlite3.OperationalError)", false),
+        ("call", "retval.fetchall", "With(self._mutex)>If", false) ] := by decide
+
+/-- what the table function says about the R4-C09 shape (the autocommit argument removed from the connect call, an assignment
+    on the init-only path instead): only the first connection is in autocommit mode - the configuration of the witness
+    `non_autocommit_reconnect_loses_writes` -/
+theorem cfg_of_init_only_autocommit :
+    cfgOf ((auditedSqlSites.filter (fun s => !(s.kind == "connkw" && s.sql == "isolation_level"))) ++
+      [{ method := "SqliteStorage._ensure_table_exists", kind := "connattr", callee := "self.db", sql := "isolation_level", toks := [],
+         params := "None", ctx := "", inLoop := false, underMutex := false, hasLimit := false, hasOffset := false,
+         hasOrderBy := false, result := "", exitsBefore := 0, reach := "init-only" }]) =
+      { initAuto := true, reconnAuto := false } := by decide
+
+/-- non-vacuity: the audited table has the 13 statement rows, 6 other calls, 2 loops and 5 connect arguments -/
 example : ((auditedSqlSites.filter (·.kind == "stmt")).length, (auditedSqlSites.filter (·.kind == "call")).length,
-           (auditedSqlSites.filter (·.kind == "loop")).length) = (13, 4, 2) := by decide
+           (auditedSqlSites.filter (·.kind == "loop")).length, (auditedSqlSites.filter (·.kind == "connkw")).length) = (13, 6, 2, 5) := by decide
 
 end CS.Storage
